@@ -186,7 +186,7 @@ func C11(r *explore.Run) {
 				c.Violation(sig, x, d)
 			}
 			if nt {
-				c.Nontrivial(explore.Hash(pr[0] + x))
+				c.Nontrivial(explore.Hash(x))
 			}
 		}
 	})
@@ -226,7 +226,7 @@ func composeEdits(r *explore.Run) {
 				c.Violation(sig, y, d)
 			}
 		}
-		c.Nontrivial(explore.Hash(e.Name + x))
+		c.Nontrivial(explore.Hash(x))
 		c.OutcomeStr(e.Name + x)
 	})
 }
